@@ -299,6 +299,20 @@ func neverNil(v ssa.Value, seen map[ssa.Value]bool) bool {
 		return true
 	case *ssa.ChangeType:
 		return neverNil(x.X, seen)
+	case *ssa.UnOp:
+		// a local cell (named result, variable captured by a closure): every store into it
+		if al, ok := x.X.(*ssa.Alloc); ok && x.Op == token.MUL {
+			n := 0
+			for _, ref := range *al.Referrers() {
+				if st, ok := ref.(*ssa.Store); ok && st.Addr == al {
+					n++
+					if !neverNil(st.Val, seen) {
+						return false
+					}
+				}
+			}
+			return n > 0
+		}
 	}
 	return false
 }
@@ -764,12 +778,8 @@ func nilMapWrites(c *core.Ctx, rule string) {
 						}
 						for _, rr := range *fa.Referrers() {
 							if s, ok := rr.(*ssa.Store); ok && s.Addr == fa && s.Block() == al.Block() {
-								if _, isMake := s.Val.(*ssa.MakeMap); isMake {
-									set = true
-								}
-								if _, isPhi := s.Val.(*ssa.Phi); isPhi {
-									set = false
-								}
+								// a made map, or whatever a helper returns; not nil and not a merge that may carry nil
+								set = mapNeverNil(s.Val, map[ssa.Value]bool{})
 							}
 						}
 					}
@@ -780,6 +790,40 @@ func nilMapWrites(c *core.Ctx, rule string) {
 		}
 	}
 	c.Floor(rule, n, 2, "per-session records with a written map field")
+}
+
+func mapNeverNil(v ssa.Value, seen map[ssa.Value]bool) bool {
+	if seen[v] {
+		return true
+	}
+	seen[v] = true
+	switch x := v.(type) {
+	case *ssa.MakeMap:
+		return true
+	case *ssa.Const:
+		return !x.IsNil()
+	case *ssa.Phi:
+		for _, e := range x.Edges {
+			if !mapNeverNil(e, seen) {
+				return false
+			}
+		}
+		return true
+	case *ssa.Call:
+		if callee := x.Call.StaticCallee(); callee != nil && callee.Blocks != nil {
+			ok := true
+			core.Instrs(callee, func(in ssa.Instruction) {
+				if r, isR := in.(*ssa.Return); isR && len(r.Results) > 0 && !mapNeverNil(r.Results[0], seen) {
+					ok = false
+				}
+			})
+			return ok
+		}
+		return false
+	case *ssa.ChangeType:
+		return mapNeverNil(x.X, seen)
+	}
+	return false
 }
 
 // ---- mutexes on the event loop ---------------------------------------------------------------------------------
